@@ -21,6 +21,23 @@ def cases(ctx):
             ctx.count('spk-' + ty)
             yield Case(f'spk {ty} {hx(h)} {net}', 'ms', nontrivial=net != 'testnet', tag='spk',
                        spec=lambda ans, ty=ty, h=h: (f's:spk {ty} {hx(h)}', ans))
+    # redeem / witness scripts that themselves look like the standard templates (hash locks, nested P2SH, ...)
+    shaped = []
+    for _ in range(ctx.n(6, 200)):
+        h20 = G.rbytes(rng, 20).hex(); h32 = G.rbytes(rng, 32).hex()
+        shaped += [['OP_HASH160', h20, 'OP_EQUAL'], ['OP_DUP', 'OP_HASH160', h20, 'OP_EQUALVERIFY', 'OP_CHECKSIG'], ['OP_0', h20], ['OP_0', h32],
+                   ['OP_1', h32], ['OP_SHA256', h32, 'OP_EQUAL'], ['OP_HASH256', h32, 'OP_EQUAL'], ['OP_RIPEMD160', h20, 'OP_EQUAL'], [h20], [h32], []]
+    for toks in shaped:
+        ctx.count('commit-template-shaped')
+        yield Case(f'script_commit {toks_str(toks)}', 'ms', nontrivial=True, tag='commit-shaped')
+    # the same Script object after its helpers were used and its token list was then changed in place
+    for _ in range(ctx.n(40, 1500)):
+        toks = G.script_tokens(rng, names, 6, big=False) or ['OP_1']
+        extra = G.script_tokens(rng, names, 3, big=False) or ['OP_DROP']
+        ctx.count('commit-after-mutation')
+        yield Case(f'script_commit_after {toks_str(toks)} {toks_str(extra)}', 'ms', nontrivial=True, tag='commit-after',
+                   model=lambda ans, t=toks + extra: (f'm:script_commit {toks_str(t)}', ans),
+                   spec=lambda ans, t=toks + extra: (f's:script_commit {toks_str(t)}', ans))
     for _ in range(ctx.n(250, 10000)):
         toks = G.script_tokens(rng, names, 12, big=rng.random() < 0.08)
         if not toks: toks = ['OP_1']
@@ -42,9 +59,12 @@ def impl(op, a, ctx):
         elif ty == 'p2wsh': ad = P2wshAddress(witness_program=h.hex())
         else: ad = P2trAddress(witness_program=h.hex())
         return 'ok ' + hx(ad.to_script_pub_key().to_bytes())
-    if op == 'script_commit':
+    if op in ('script_commit', 'script_commit_after'):
         setup('testnet')
         s = Script(F.toks())
+        if op == 'script_commit_after':
+            s.to_p2sh_script_pub_key(); s.to_p2wsh_script_pub_key(); s.to_bytes(); s.to_hex()
+            s.get_script().extend(F.toks())
         a1 = P2shAddress(script=s); a2 = P2wshAddress(script=s)
         spk1 = s.to_p2sh_script_pub_key().to_bytes(); spk2 = s.to_p2wsh_script_pub_key().to_bytes()
         # the helper's output equals the locking script of the address created from the same script
